@@ -39,6 +39,49 @@
 
 namespace jsoncons {
 namespace jsonschema {
+
+namespace detail {
+
+    // JSON Schema instance equality: two objects are equal when they have the same members, 
+    // in any order (operator== of an order preserving basic_json compares members position by position)
+    template <typename Json>
+    bool equal_values(const Json& lhs, const Json& rhs)
+    {
+        if (lhs.is_object() && rhs.is_object())
+        {
+            if (lhs.size() != rhs.size())
+            {
+                return false;
+            }
+            for (const auto& member : lhs.object_range())
+            {
+                auto it = rhs.find(member.key());
+                if (it == rhs.object_range().end() || !equal_values(member.value(), it->value()))
+                {
+                    return false;
+                }
+            }
+            return true;
+        }
+        if (lhs.is_array() && rhs.is_array())
+        {
+            if (lhs.size() != rhs.size())
+            {
+                return false;
+            }
+            for (std::size_t i = 0; i < lhs.size(); ++i)
+            {
+                if (!equal_values(lhs[i], rhs[i]))
+                {
+                    return false;
+                }
+            }
+            return true;
+        }
+        return lhs == rhs;
+    }
+
+} // namespace detail
     
     template <typename Json>
     class schema_validator;
@@ -1087,7 +1130,7 @@ namespace jsonschema {
             {
                 for (auto jt = it+1; jt != a.array_range().end(); ++jt) 
                 {
-                    if (*it == *jt) 
+                    if (detail::equal_values(*it, *jt)) 
                     {
                         return false; // contains duplicates 
                     }
@@ -2271,7 +2314,7 @@ namespace jsonschema {
             bool in_range = false;
             for (const auto& item : value_.array_range())
             {
-                if (item == instance) 
+                if (detail::equal_values(item, instance)) 
                 {
                     in_range = true;
                     break;
@@ -2322,7 +2365,7 @@ namespace jsonschema {
             error_reporter<Json>& reporter,
             jsoncons::optional<Json>& patch) const final
         {
-            if (value_ != instance)
+            if (!detail::equal_values(value_, instance))
             {
                 eval_context<Json> this_context(context, this->keyword());
 
